@@ -48,6 +48,29 @@ def lib_of_call(prog, module, call, local_objs=None):
     return LIB_OF_PREFIX.get(root)
 
 
+def branch_libs(prog, module, stmts):
+    """Compression libraries whose openers are called anywhere in the statements (assignments, returns, call chains such as
+    zstd.ZstdDecompressor().stream_reader(fp), and objects held in a local first)."""
+    local_objs = {}
+    libs = []
+    for s0 in stmts:
+        for a in ast.walk(s0):
+            if isinstance(a, ast.Assign) and isinstance(a.value, ast.Call) and isinstance(a.targets[0], ast.Name):
+                rr = prog.resolve_expr(module, a.value.func)
+                if getattr(rr, "name", None):
+                    local_objs[a.targets[0].id] = rr.name
+    for s0 in stmts:
+        for c in ast.walk(s0):
+            if not isinstance(c, ast.Call):
+                continue
+            l = lib_of_call(prog, module, c, local_objs)
+            if l is None and isinstance(c.func, ast.Attribute) and isinstance(c.func.value, ast.Call):
+                l = lib_of_call(prog, module, c.func.value, local_objs)
+            if l and l not in libs:
+                libs.append(l)
+    return libs
+
+
 def run(ctx):
     prog = ctx.prog
     base = prog.module("flow.record.base")
@@ -81,16 +104,8 @@ def run(ctx):
             magic = _fold(prog, base, sw.args[0])
             if isinstance(magic, bytes):
                 flags = [x.id for x in ast.walk(st.test) if isinstance(x, ast.Name) and x.id.startswith("HAS_")]
-                local_objs, lib = {}, None
-                for s0 in st.body:
-                    for a in ast.walk(s0):
-                        if isinstance(a, ast.Assign) and isinstance(a.value, ast.Call):
-                            l = lib_of_call(prog, base, a.value, local_objs)
-                            if l and isinstance(a.targets[0], ast.Name):
-                                rr = prog.resolve_expr(base, a.value.func)
-                                if getattr(rr, "name", None):
-                                    local_objs[a.targets[0].id] = rr.name
-                                lib = lib or l
+                bl = branch_libs(prog, base, st.body)
+                lib = bl[0] if len(bl) == 1 else (tuple(bl) or None)
                 codec = next((k for k, v in SIGNATURES.items() if v == magic), None)
                 sniff[norm(sw.args[0])] = dict(codec=codec, magic=magic, n=len(magic), flags=flags, lib=lib, node=st)
         for cmpn in [n for n in ast.walk(st.test) if isinstance(n, ast.Compare)]:
@@ -102,17 +117,8 @@ def run(ctx):
             sl = cmpn.left.slice
             n = _fold(prog, base, sl.upper) if isinstance(sl, ast.Slice) and sl.lower is None and sl.upper is not None else None
             flags = [x.id for x in ast.walk(st.test) if isinstance(x, ast.Name) and x.id.startswith("HAS_")]
-            local_objs = {}
-            lib = None
-            for s0 in st.body:
-                for a in ast.walk(s0):
-                    if isinstance(a, ast.Assign) and isinstance(a.value, ast.Call):
-                        l = lib_of_call(prog, base, a.value, local_objs)
-                        if l and isinstance(a.targets[0], ast.Name):
-                            rr = prog.resolve_expr(base, a.value.func)
-                            if getattr(rr, "name", None):
-                                local_objs[a.targets[0].id] = rr.name
-                            lib = lib or l
+            bl = branch_libs(prog, base, st.body)
+            lib = bl[0] if len(bl) == 1 else (tuple(bl) or None)
             codec = next((k for k, v in SIGNATURES.items() if v == magic), None)
             sniff[norm(cmpn.comparators[0])] = dict(codec=codec, magic=magic, n=n, flags=flags, lib=lib, node=st)
     ctx.floor("R11.1", "sniffing branches in open_stream", len(sniff), 4)
@@ -123,17 +129,7 @@ def run(ctx):
         if isinstance(st, ast.If) and isinstance(st.test, ast.Call) and isinstance(st.test.func, ast.Attribute) and st.test.func.attr == "endswith":
             exts = _fold(prog, base, st.test.args[0])
             exts = list(exts) if isinstance(exts, (tuple, list)) else [exts]
-            local_objs = {}
-            libs = set()
-            for s0 in st.body:
-                for a in ast.walk(s0):
-                    if isinstance(a, ast.Assign) and isinstance(a.value, ast.Call):
-                        rr = prog.resolve_expr(base, a.value.func)
-                        if getattr(rr, "name", None) and isinstance(a.targets[0], ast.Name):
-                            local_objs[a.targets[0].id] = rr.name
-                        l = lib_of_call(prog, base, a.value, local_objs)
-                        if l:
-                            libs.add(l)
+            libs = set(branch_libs(prog, base, st.body))
             flags = [x.id for s0 in st.body for x in ast.walk(s0) if isinstance(x, ast.Name) and x.id.startswith("HAS_")]
             ext_rows.append(dict(exts=exts, libs=libs, flags=flags, node=st))
     ctx.floor("R11.1", "extension branches in open_path", len(ext_rows), 4)
@@ -194,7 +190,10 @@ def run(ctx):
     labels = set()
     for r in rets:
         if isinstance(r.value, ast.Tuple) and len(r.value.elts) == 2:
-            labels.add(_fold(prog, base, r.value.elts[1]))
+            lab = r.value.elts[1]
+            ldefs = [st.value for st in walk_no_nested(find_adapter) if isinstance(st, ast.Assign) and len(st.targets) == 1 and norm(st.targets[0]) == norm(lab)] if isinstance(lab, ast.Name) else []
+            for v in (ldefs or [lab]):
+                labels.add(_fold(prog, base, v) if not (isinstance(v, ast.Constant) and v.value is None) else None)
     ctx.check(labels == {"avro", "stream", None}, "R11.2", "find_adapter_for_stream:labels", f"returns adapter labels {labels}", find_adapter, "avro / stream / None")
 
     # ------------------------------------------------------------------ R11.3 sniffing reached on every read path
@@ -204,13 +203,53 @@ def run(ctx):
     os_calls = [c for c in calls_in(open_path) if isinstance(prog.resolve_expr(base, c.func), DefRef) and prog.resolve_expr(base, c.func).node is open_stream]
     ctx.floor("R11.3", "open_stream calls in open_path", len(os_calls), 1)
     if os_calls:
+        from .. import logic
+
         conds = enclosing_conditions(os_calls[0], open_path)
-        ok = conds == [("not fp", True), ("not out and binary", True)] or conds == [("not fp", True), ("binary and not out", True)]
-        ctx.check(ok, "R11.3", "open_path:sniff-on-read", f"open_stream is only reached under {conds}: a binary read of a path without a codec "
-                  "extension may skip signature detection", os_calls[0], "reached for every binary read that did not pick a codec by extension: " + str(conds),
+        rets_p = [r for r in walk_no_nested(open_path) if isinstance(r, ast.Return) and r.value is not None]
+        fp_name = norm(rets_p[-1].value) if rets_p else "fp"
+        mode_p = func_params(open_path)[1]
+        bin_name = next((st.targets[0].id for st in walk_no_nested(open_path) if isinstance(st, ast.Assign) and isinstance(st.targets[0], ast.Name) and isinstance(st.value, ast.Compare)
+                         and isinstance(st.value.ops[0], ast.In) and isinstance(st.value.left, ast.Constant) and st.value.left.value == "b" and norm(st.value.comparators[0]) == mode_p), "binary")
+        out_name = "out"
+        for st in walk_no_nested(open_path):
+            if isinstance(st, ast.Assign) and isinstance(st.targets[0], ast.Name):
+                v = st.value
+                if isinstance(v, ast.Compare) and norm(v.left) == mode_p and isinstance(v.ops[0], ast.In) and "'w'" in norm(v.comparators[0]):
+                    out_name = st.targets[0].id
+                if isinstance(v, ast.Constant) and v.value is True and any(f"{mode_p} in" in t and "'w'" in t and p for t, p in enclosing_conditions(st, open_path)):
+                    out_name = st.targets[0].id
+        # a binary read that did not pick a codec by extension: fp unset, not writing, binary
+        val = {fp_name: False, out_name: False, bin_name: True, f"{fp_name} is None": True, f"{mode_p} in ('w', 'wb')": False}
+        call_node = pcfg.node_of(os_calls[0]).id
+        feasible = logic.reachable_assuming(pcfg, pcfg.entry, lambda a: val.get(a))
+        # ... among the feasible paths, none may reach a return without passing the open_stream call
+        seen = {pcfg.entry}
+        work = [pcfg.entry]
+        skipped = False
+        while work:
+            u = work.pop()
+            if u == call_node:
+                continue
+            node = pcfg.nodes[u]
+            if node.kind == "stmt" and isinstance(node.ast, ast.Return):
+                skipped = True
+            verdict = None
+            if node.kind == "test" and node.ast is not None:
+                f = logic.formula(node.ast.test)
+                verdict = logic.evaluate3(f, {k: v for k, v in ((a, val.get(a)) for a in logic.atoms(f)) if v is not None})
+            for v, cond in pcfg.succ[u]:
+                if verdict in (True, False) and cond is not None and not isinstance(cond[0], str) and cond[1] != verdict:
+                    continue
+                if v not in seen:
+                    seen.add(v)
+                    work.append(v)
+        ctx.check(call_node in feasible and not skipped, "R11.3", "open_path:sniff-on-read", f"open_stream is only reached under {conds}: a binary read of a path without a codec "
+                  "extension may skip signature detection", os_calls[0], "every binary read that did not pick a codec by extension passes through open_stream",
                   key="R11.3:open_path:sniff-conditional")
         # its result must be what is returned
-        assigned = isinstance(getattr(os_calls[0], "_parent", None), ast.Assign) and norm(os_calls[0]._parent.targets[0]) == "fp"
+        par = getattr(os_calls[0], "_parent", None)
+        assigned = (isinstance(par, ast.Assign) and norm(par.targets[0]) == fp_name) or isinstance(par, ast.Return)
         ctx.check(assigned, "R11.3", "open_path:sniff-result-used", "the (possibly decompressing) object returned by open_stream is discarded", os_calls[0], "fp = open_stream(fp, mode)")
     acfg = CFG(radapter)
     os2 = [c for c in calls_in(radapter) if isinstance(prog.resolve_expr(base, c.func), DefRef) and prog.resolve_expr(base, c.func).node is open_stream]
@@ -245,9 +284,18 @@ def run(ctx):
     imp = [c for c in calls_in(radapter) if getattr(prog.resolve_expr(base, c.func), "name", "") == "importlib.import_module"]
     if not imp:
         raise AnalysisError("R11.4: import_module not found in RecordAdapter")
-    none_rets = [st for st in ast.walk(radapter) if isinstance(st, ast.If) and norm(st.test) == "adapter is None"]
-    inner = [st for st in none_rets if any(isinstance(n, ast.Raise) and "RecordAdapterNotFound" in norm(n) for n in ast.walk(st))]
-    ctx.check(bool(inner) and all(_always_raises(st.body) for st in inner[-1:]), "R11.4", "RecordAdapter:refuses-unknown", "an unrecognised stream does not end in RecordAdapterNotFound", radapter,
+    from .. import logic as _logic
+
+    refuses = False
+    if fa2 and isinstance(getattr(fa2[0], "_parent", None), ast.Assign) and isinstance(fa2[0]._parent.targets[0], ast.Tuple) and len(fa2[0]._parent.targets[0].elts) == 2:
+        label = norm(fa2[0]._parent.targets[0].elts[1])
+        start = acfg.node_of(fa2[0]).id
+        nxt = [v for v, _ in acfg.succ[start]]
+        reach = set()
+        for v in nxt:
+            reach |= _logic.reachable_assuming(acfg, v, lambda a, label=label: {f"{label} is None": True, label: False}.get(a))
+        refuses = acfg.node_of(imp[0]).id not in reach and acfg.raise_exit in reach
+    ctx.check(refuses, "R11.4", "RecordAdapter:refuses-unknown", "an unrecognised stream does not end in RecordAdapterNotFound", radapter,
               "adapter is None after sniffing -> raise RecordAdapterNotFound")
     rh = ctx.anchor_func("flow.record.stream.RecordStreamReader.readheader")
     ctx.use(rh._module)
@@ -276,9 +324,15 @@ def run(ctx):
     # ------------------------------------------------------------------ R11.5 container table
     ctx.rule("R11.5", "ext_to_adapter maps to adapter modules that exist and define <Title>Reader / <Title>Writer")
     table = None
-    for st in walk_no_nested(radapter):
-        if isinstance(st, ast.Assign) and isinstance(st.value, ast.Dict) and norm(st.targets[0]) == "ext_to_adapter":
-            table = _fold(prog, base, st.value)
+    default = []
+    for c in calls_in(radapter):
+        if isinstance(c.func, ast.Attribute) and c.func.attr == "get" and len(c.args) == 2 and isinstance(c.func.value, ast.Name):
+            recv = c.func.value.id
+            local = [st.value for st in walk_no_nested(radapter) if isinstance(st, ast.Assign) and norm(st.targets[0]) == recv]
+            t = _fold(prog, base, local[0]) if len(local) == 1 else (_fold(prog, base, c.func.value) if not local else None)
+            if isinstance(t, dict) and t and all(isinstance(k, str) and k.startswith(".") for k in t):
+                table = t
+                default.append(c)
     if not isinstance(table, dict):
         raise AnalysisError("R11.5: ext_to_adapter not found")
     ctx.floor("R11.5", "extension -> adapter rows", len(table), 3)
@@ -288,7 +342,6 @@ def run(ctx):
         ok = m is not None and any(isinstance(n, ast.ClassDef) and n.name == f"{ad.title()}Reader" for n in m.tree.body) and \
             any(isinstance(n, ast.ClassDef) and n.name == f"{ad.title()}Writer" for n in m.tree.body)
         ctx.check(ok, "R11.5", f"ext_to_adapter:{ext}", f"{ext} -> {ad}: module or {ad.title()}Reader/{ad.title()}Writer missing", radapter, f"{ext} -> {modname}")
-    default = [c for c in calls_in(radapter) if isinstance(c.func, ast.Attribute) and c.func.attr == "get" and norm(c.func.value) == "ext_to_adapter"]
     ctx.check(bool(default) and len(default[0].args) == 2 and _fold(prog, base, default[0].args[1]) == "stream", "R11.5", "ext_to_adapter:default", "unknown extensions do not default to the stream adapter",
               radapter, "default adapter is 'stream'")
 
